@@ -88,11 +88,15 @@ def unit(u) -> Stats:
             Ks = None
         elif n == 5:
             Ks = list(A.layered_knowledge(n, 2))
+        elif "few" in modes:
+            Ks = A.few_knowledge(n)
         else:
             Ks = list(A.layered_knowledge(n, 1)) + (list(A.distance2_knowledge(n)) if "pairs" in modes else [])
         lr.fresh(Ks=Ks)
         if "euler" in modes:
             lr.euler()
+        if n == 3 and "dirty" in modes:
+            lr.dirty(1)
         st.nontrivial += len(chk.nontrivial)
         st.count("integer_completion_polytopes", chk.polytopes)
         st.count("integer_completions_enumerated", chk.completions)
@@ -126,14 +130,16 @@ def units(run: Run):
             if tag == "dyadic":
                 us.append((3, f"{tag}#{i}", gv, ("euler",), 0.0, 0))   # polytope enumeration is over integers
             else:
-                us.append((3, f"{tag}#{i}", gv, ("euler",), 0.0, 3))
+                us.append((3, f"{tag}#{i}", gv, ("euler", "dirty") if tag == "shift" else ("euler",), 0.0, 3))
+        for tag, gv in A.with_scales([g], 3):
+            us.append((3, f"{tag}#{i}", gv, (), 0.0, 0))
     games4 = list(enumerate(A.a4_sa_reps(seed))) if quick else list(enumerate(A.a4_sa_full()))
     for i, g in games4:
-        variants = list(A.with_shifts([g], 4))
-        todo = [variants[(i + seed) % 3]] if quick else variants
+        variants = A.all_variants(g, 4)
+        todo = [variants[(i + seed) % 5]] if quick else variants
         for tag, gv in todo:
             pu = 0
-            if tag != "dyadic":
+            if tag in ("plain", "shift"):
                 if quick:
                     pu = 3 if i % 6 == seed % 6 else 2
                 else:
@@ -154,6 +160,8 @@ def units(run: Run):
             continue
         gv = A.shifted(g, (1, -1, 2, 0, 3)) if i % 4 < 2 else tuple(a + b for a, b in zip(g, convex5))
         us.append((5, f"pairgraph#{i}", gv, (), 0.0, 0))
+    for n in (7, 8):
+        us.append((n, f"n{n}:budget2", A.budget_game(n, 2), ("few",), 0.0, 0))
     for n in ((6,) if quick else (6, 7)):
         for tag, gv in A.larger_n_samples(n):
             if quick and not tag.startswith(("matching-shift", "path-shift", "star+convex")):
